@@ -59,7 +59,7 @@ class Gen(object):
   def top_kinds(self, nicira=True):
     ks = []
     for k, lay in self.L.items():
-      if k.startswith("#"):
+      if k.startswith("#") or k == "hello_ext":     # hello_ext: only ever received (OFWire.tla Receive)
         continue
       if len(lay) >= 4 and lay[0]["t"] == "const" and lay[0]["c"] == [1]:
         ks.append(k)
@@ -206,11 +206,9 @@ class Gen(object):
     """bring a random value into the property's domain (OFWire.tla Constructible)"""
     r = self.rnd
     k, f = sv["k"], sv["f"]
-    if k == "a_output" and f["port"] != [255, 253]:
-      if r.random() < 0.5:
-        f["port"] = [255, 253]
-      else:
-        f["max_len"] = [0, 0]
+    if k == "a_output":
+      if r.random() < 0.3:
+        f["port"] = [255, 253]          # (any max_len is allowed with any port: pack() normalises, PackCanon)
     elif k in ("packet_in", "nxt_packet_in"):
       if int.from_bytes(bytes(f["total_len"]), "big") < len(f["data"]):
         f["total_len"] = r.choice([list(len(f["data"]).to_bytes(2, "big")), [255, 255]])
